@@ -245,6 +245,10 @@ func (dtnet *libp2pDataTransferNetwork) handleNewStream(s network.Stream) {
 		switch s.Protocol() {
 		case datatransfer.ProtocolDataTransfer1_2:
 			received, err = message.FromNet(s)
+		default:
+			s.Reset() // nolint: errcheck,gosec
+			go dtnet.receiver.ReceiveError(fmt.Errorf("unrecognized protocol on stream: %s", s.Protocol()))
+			return
 		}
 
 		if err != nil {
